@@ -29,8 +29,8 @@ def main(ids):
                 p = os.path.join(d, f)
                 s = open(p).read()
                 if s.count(old) != m.get("count", 1):
-                    print(f"!! {m['id']}: pattern occurs {s.count(old)} times in {f}")
-                    raise SystemExit(2)
+                    print(f"!! {m['id']}: pattern occurs {s.count(old)} times in {f} (mutant skipped: the source changed)")
+                    raise LookupError(m["id"])
                 open(p, "w").write(s.replace(old, new))
             t = run(["/venv/bin/python", "-m", "pytest", "-q", "-x", "-p", "no:cacheprovider"], cwd=d)
             survives = t.returncode == 0
@@ -49,6 +49,8 @@ def main(ids):
             row["as_expected"] = bool(ok and (survives or m.get("force")))
             report.append(row)
             print(json.dumps(row))
+        except LookupError:
+            report.append(dict(id=m["id"], skipped="pattern not found in the current source"))
         finally:
             shutil.rmtree(d, ignore_errors=True)
     out = os.path.join(ROOT, "selftest", "report.json")
